@@ -126,6 +126,7 @@ type Obligation struct {
 	extra   []string // extra assertions (key axioms)
 	Bounded bool
 	Confirm string
+	Known   bool
 	precomputed bool
 	defs    []string
 	env     *Env
